@@ -125,7 +125,7 @@ def run(ctx):
             res, n = check_program(b, inst)
             tot += n
             for kind, msg in res:
-                ctx.violation(dict(kind=kind, d35_shape=d35_shape(inst["prog"]), node_reuse=node_reuse(inst["prog"]), shared=shared(inst["prog"]), tagged=any(s["op"] == "tag" for s in inst["prog"]), error=(msg.split("raised ")[1].split(":")[0] if "raised " in msg else ""),
+                ctx.violation(dict(kind=kind, d35_shape=d35_shape(inst["prog"]), node_reuse=node_reuse(inst["prog"]), shared=shared(inst["prog"]), tagged=any(s["op"] == "tag" for s in inst["prog"]), pre=any(s["op"] == "ptwpre" for s in inst["prog"]), error=(msg.split("raised ")[1].split(":")[0] if "raised " in msg else ""),
                                    ops=sorted({s["op"] for s in inst["prog"]})), "%s: %s" % (cc.describe(inst["prog"]), msg), replay=dict(program=inst))
     ctx.traces += len(progs)
     ctx.notes.update(programs=len(progs), with_shared_subtrees=nsh, evaluations=tot)
